@@ -1110,6 +1110,8 @@ package psatoken
 //@ bounded[C01,C11,C14] value-rules : byte-string lengths 0..80 through every validator, setter and getter of both profiles and of the component; 600 strings in the single-edit neighbourhood (insertion / substitution / deletion over 10 characters incl. newline and a non-ASCII letter) of three valid certification references through both regular expressions, setters and getters; all 2^16 lifecycle values through the state mapping, names, validator and (sampled) setters -- against oracles written from the statement :: boundedValueRules()
 //@ bounded[C13] error-classes : every getter of an empty and of a malformed claims-set of both profiles, four setter failures, component fields, a profile mismatch: exactly one of the five classes; the filter on 9 + 7 error values built by wrapping :: boundedErrorClasses()
 //@ bounded[C16] registry : re-registration under 4 taken names, a claims type without profile field, one late registration: lookups of 5 names and decoding of 2 tokens before vs after; independence of two NewClaims results; 300 repetitions of JSON dispatch of an ambiguous and of a profile-less token :: boundedRegistry()
+//@ bounded[C05] decode-no-panic : 7 valid claims-sets as CBOR, JSON and signed COSE token: every truncation, every value of each of the first 10 bytes, 11 type-swapping substitutions (null, undefined, empty array / map / string, break, tag, ...) at every position, every JSON member replaced by 11 other values or duplicated; each result decoded through every entry point and, where something is returned, validated, read through every getter, re-encoded and verified; thorough tier: all 32 sets, every value of every byte :: boundedDecodeNoPanic()
+//@ bounded[C08] gates : 96 claims-sets (valid, damaged, extension profiles) through the seven validating entry points, compared with Validate() and the non-validating sibling (bytes, attachment, returned values) :: boundedGates()
 //@ bounded[C02,C03] tamper : 5 pairs of ES256 tokens over the valid claims-sets: every single-bit flip, every truncation, payload / signature / protected-header splices between two tokens, arbitrary signature bytes, the other key; thorough tier: 48 ES256, 4 ES384, 4 ES512, 4 EdDSA and 2 PS256 token pairs :: boundedTamper()
 //@ bounded[C20] envelope : envelopes from an independent CBOR writer: tags 0..30 and none, array lengths 0..6, each of the four elements replaced by 8 other item types, wrapped / null / array / empty / integer payloads, trailing bytes :: boundedEnvelope()
 //@ bounded[C19,C03] histories : all operation sequences of length <= 4 over {Sign ok, Sign with failing signer, Sign with empty signature, Sign with an unsupported algorithm and a junk signature, ValidateAndSign on invalid claims, UnmarshalCOSE genuine, UnmarshalCOSE garbage} on one Evidence (2 800 sequences); thorough tier: length <= 5 (19 607 sequences) :: boundedHistories()
